@@ -362,21 +362,27 @@ def probe_get_spans():
             _count("get_spans")
             i0, i1, j0, j1 = bbox
             ctx = STATE["ctx"]
+            offs = self.bin1_offsets
             if (i1 - i0 < 1) or (j1 - j0 < 1):
                 ok = res == []
             else:
-                ok = (len(res) > 0 and res[0][0] == i0 and res[-1][1] == i1
-                      and all(a < b for a, b in res)
-                      and all(res[k][1] == res[k + 1][0] for k in range(len(res) - 1)))
+                # contiguous from i0; rows left out at the end hold no pixels
+                end = res[-1][1] if res else i0
+                ok = (all(a < b for a, b in res)
+                      and (not res or res[0][0] == i0)
+                      and all(res[k][1] == res[k + 1][0] for k in range(len(res) - 1))
+                      and i0 <= end <= i1 and offs[end] == offs[i1])
                 if ctx is not None and len(res) > 1:
                     ctx.features["spans:multi"] += 1
-                    offs = self.bin1_offsets
                     for a, b in res[:-1]:
                         if b < len(offs) - 1 and offs[b] == offs[b + 1]:
                             ctx.features["spans:edge-on-empty-row"] += 1
+                if ctx is not None and res and end < i1:
+                    ctx.features["spans:trailing-empty-rows-skipped"] += 1
             if not ok:
                 pfail("get_spans", "C03", "probe:get_spans-not-a-tiling",
-                      f"row spans {res} do not tile [{i0},{i1})", {"bbox": bbox, "chunksize": chunksize})
+                      f"row spans {[(int(a), int(b)) for a, b in res]} do not cover the stored rows of [{i0},{i1})",
+                      {"bbox": bbox, "chunksize": chunksize})
         except Exception as e:
             pfail("get_spans", "C03", "probe:get_spans-error", f"probe error {e!r}")
         return res
@@ -403,27 +409,40 @@ def probe_filllower():
             ctx = STATE["ctx"]
             i0, i1, j0, j1 = bbox
             tr = i1 > j1
-            groups = []
+            known = {}
             for task in self.tasks:
-                key = (task[0] is not reader, tuple(task[2]))
-                if key not in groups:
-                    groups.append(key)
-            cover = np.zeros((max(i1 - i0, 0), max(j1 - j0, 0)), dtype=int)
-            for transposed, bb in groups:
-                a0, a1, b0, b1 = bb
-                if transposed:
-                    r0, r1, c0, c1 = b0, b1, a0, a1
-                else:
-                    r0, r1, c0, c1 = a0, a1, b0, b1
-                if r0 < i0 or r1 > i1 or c0 < j0 or c1 > j1 or r1 < r0 or c1 < c0:
-                    pfail("filllower", "C03", "probe:filllower-subbox-outside-query",
-                          f"sub-box {bb} (transposed={transposed}) leaves query box {bbox}")
+                known[tuple(task[2])] = task[0] is not reader
+            boxes = [tuple(bb) for bb in self._bboxes]
+
+            def cover_for(orients):
+                cov = np.zeros((max(i1 - i0, 0), max(j1 - j0, 0)), dtype=int)
+                for bb, transposed in zip(boxes, orients):
+                    a0, a1, b0, b1 = bb
+                    if a1 <= a0 or b1 <= b0:
+                        continue
+                    r0, r1, c0, c1 = (b0, b1, a0, a1) if transposed else (a0, a1, b0, b1)
+                    if r0 < i0 or r1 > i1 or c0 < j0 or c1 > j1:
+                        return None
+                    cov[r0 - i0:r1 - i0, c0 - j0:c1 - j0] += 1
+                return cov
+
+            # orientation of a box without tasks (no stored rows) is not observable: try both
+            import itertools as _it
+            choices = [[known[bb]] if bb in known else [False, True] for bb in boxes]
+            cover = None
+            good = False
+            for orients in _it.product(*choices):
+                cov = cover_for(orients)
+                if cov is None:
                     continue
-                cover[r0 - i0:r1 - i0, c0 - j0:c1 - j0] += 1
-            if cover.size and (cover.min() != 1 or cover.max() != 1):
+                cover = cov
+                if cov.size == 0 or (cov.min() == 1 and cov.max() == 1):
+                    good = True
+                    break
+            if not good:
                 pfail("filllower", "C03", "probe:filllower-subboxes-not-a-tiling",
-                      f"sub-boxes {groups} of query {bbox} cover cells "
-                      f"{int(cover.min())}..{int(cover.max())} times")
+                      f"sub-boxes {boxes} (transposed: {known}) of query {bbox} do not tile it")
+            cover = np.zeros((max(i1 - i0, 0), max(j1 - j0, 0)), dtype=int)
             if ctx is not None and cover.size:
                 a0, a1, b0, b1 = (j0, j1, i0, i1) if tr else (i0, i1, j0, j1)
                 if a0 == b0:
